@@ -72,11 +72,11 @@ def search(ctx):
 
 SPEC = {
     "id": "C13",
-    "gens": ["EvalTable"],
+    "gens": ["EvalTable", "EvalSites"],
     "lean_modules": ["RsslVerif.Thm.C13"],
     "theorems": [T + n for n in [
         "consteval_no_panic", "tables_panic_free", "consteval_agrees", "div_mod_zero_not_constant",
-        "div_mod_zero_not_constant_expr", "literal_exact", "literal_neg_exact"]],
+        "div_mod_zero_not_constant_expr", "literal_exact", "literal_neg_exact", "positions_use_eval"]],
     "harness": "c13",
     "nontrivial": nontrivial,
     "finding_key": finding_key,
@@ -97,12 +97,13 @@ SPEC = {
             "trees to depth 5; (3) arbitrary (ill-typed, wrong arity) trees to depth 4; (4) trees produced by the real type checker from "
             "generated source expressions to depth 5; C13.hyp = the theorems' hypotheses evaluated by the model on every type-checker tree; "
             "C13.pos = a generated source expression placed as array size / enum value / next enumerator / case label / template value "
-            "argument / const initialiser / numthreads argument / assert_eval operand, judged against the reference value; "
+            "argument / global and local const initialiser / numthreads, unroll and bind_group arguments / pipeline property / "
+            "assert_eval operand, judged against the reference value; "
             "non-trivial = contains an operator or cast",
     "trusted_base": [
         "Lean 4.33 kernel; axioms propext / Classical.choice / Quot.sound only (audited by #print axioms)",
         "tools/gens/c13.py (Gen.EvalTable: per-arm rule of evaluate_operator, cast rules of evaluate_cast, enum re-wrap list, "
-        "operand-loop asserts, ScalarType::get_size) — re-run on /repo's working tree every time; unknown arm shapes are extraction errors",
+        "operand-loop asserts, ScalarType::get_size; Gen.EvalSites: every call of evaluate_constexpr in the workspace) — re-run on /repo's working tree every time; unknown arm shapes are extraction errors",
         "hand-written Model/ConstEval.lean (control flow of the three functions; Rust integer semantics of plain/wrapping/checked "
         "operations and `as` casts) — tied to the code by the correspondence run",
         "Model/ConstEvalFloat.lean: IEEE-754 binary32/64 decode, compare, round-to-nearest-even, saturating float->int — the meaning of "
@@ -118,6 +119,7 @@ SPEC = {
         "overflow panics are those of a build with overflow-checks (the harness profile); release builds wrap instead",
         "NaN payload propagation of f64->f32 conversion follows x86 cvtsd2ss (NaN constants cannot be written in source)",
         "the positions (array size, enum value, case label, template argument, const initialiser, attribute argument) are not "
-        "modelled in Lean: they are checked by the correspondence run against the reference evaluator only",
+        "modelled in Lean: positions_use_eval ties the inventory of evaluate_constexpr call sites to a reviewed list; what each "
+        "site does with the result is checked by the correspondence run against the reference evaluator only",
     ],
 }
